@@ -249,6 +249,23 @@ def check(ctx):
     ctx.rule("R7", "the facade keeps hearing about its devices: a device listener that raised once does not stop later changes of that device from being delivered (C03's Observable model borrowed) - the mode decision is re-evaluated on every pump / blower change")
     from .c03 import observers as _observers
     _observers(ctx.borrowed("R7", "C03", key_contains="failing-observer"), repo)
+    ctx.rule("R8", "on means the output is running: for the device classes that drive the mode (pumps, blower) the state item named by the DEVICES row is one of the table's output-state items (all_device_keys), never a user-demand item - a demand can be set while nothing runs, and the spa can run a pump nobody demanded (filter cycle, purge)")
+    from ..facts import class_const as _cc
+    from ..packs import tables as _tables
+    T8 = _tables(repo)
+    DEV8 = _cc(repo, "GeckoConstants", "DEVICES")
+    drive = {_cc(repo, "GeckoConstants", "DEVICE_CLASS_PUMP"), _cc(repo, "GeckoConstants", "DEVICE_CLASS_BLOWER")}
+    n8 = 0
+    for d8, row8 in sorted(DEV8.items()):
+        if len(row8) < 4 or row8[3] not in drive:
+            continue
+        having = [m8 for m8 in T8.modules.values() if d8 in m8.props.get("all_device_keys", [])]
+        bad8 = [m8.stem for m8 in having if row8[2] not in m8.props.get("all_device_keys", []) or row8[2] in m8.props.get("user_demand_keys", [])]
+        n8 += 1
+        ctx.ob("R8", f"DEVICES::{d8}::state-item-is-an-output-state", bool(having) and not bad8,
+               f"GeckoConstants.DEVICES[{d8!r}] names {row8[2]!r} as its state item; in {len(bad8)} of the {len(having)} shipped tables that have the device (e.g. {bad8[:2]}) that is not an output-state item "
+               f"(or is a user demand): is_on would follow what was asked for, not what runs", repo.cls("GeckoConstants").loc)
+    ctx.floor("R8", "mode-driving DEVICES rows", n8, 6)
     ctx.rule("R6", "what counts as on: GeckoPump and GeckoBlower, built by their constructors on a model spa, read is_on == (state is not 'OFF') for every label of every label list their state items have in any shipped table (pumps OFF/HIGH/LOW and OFF/HIGH, waterfall and blower OFF/ON) and == the flag for Bool items")
     from ..facademodel import device_on_states
     from ..packs import tables
